@@ -589,6 +589,14 @@ impl VLog {
 			let mut writer = self.writer.write();
 
 			if writer.is_none() || writer.as_ref().unwrap().size() >= self.max_file_size {
+				// Finish the file that is being rotated away: flush and fsync it here,
+				// where a failure can still be reported. Merely dropping the writer
+				// would flush its buffer with the error ignored and never fsync the
+				// file, while tables are about to be installed that point into it.
+				if let Some(old_writer) = writer.as_mut() {
+					old_writer.sync()?;
+				}
+
 				// Create new file
 				let file_id = self.next_file_id.fetch_add(1, Ordering::SeqCst);
 				let file_path = self.vlog_file_path(file_id);
